@@ -112,6 +112,25 @@ fn run_render_anyway(src: &str) -> J {
     json!({"rendered": true})
 }
 
+/// Parser diagnostics as data plus the text the renderer produces for them (for specs/text/Render.tla).
+fn run_render_text(src: &str) -> J {
+    let arena = Arena::new(256 << 20).unwrap();
+    let lexer = Lexer::new(src, &arena);
+    let mut parser = Parser::new(lexer, &arena);
+    let (_, perr) = parser.parse_program();
+    let diags: Vec<J> = perr
+        .diagnostics
+        .iter()
+        .map(|d| {
+            json!({"sev": if d.severity == Severity::Error { "error" } else { "warning" }, "code": d.code, "msg": d.message,
+                   "span": [d.span.start, d.span.end],
+                   "labels": d.labels.iter().map(|l| json!({"span": [l.span.start, l.span.end], "msg": l.message.to_string()})).collect::<Vec<_>>()})
+        })
+        .collect();
+    let text = perr.render_ansi(src, "t.ns");
+    json!({"diags": diags, "text": text.as_str()})
+}
+
 pub fn worker() {
     let mut out = response_channel();
     quiet_panics();
@@ -129,7 +148,11 @@ pub fn worker() {
             .unwrap_or_else(|| vec!["front".into(), "render".into()]);
         for mode in modes {
             send(&mut out, &json!({"begin": id, "mode": mode}));
-            let res = guarded(|| if mode == "front" { run(&src) } else { run_render_anyway(&src) });
+            let res = guarded(|| match mode.as_str() {
+                "front" => run(&src),
+                "rendertext" => run_render_text(&src),
+                _ => run_render_anyway(&src),
+            });
             let mut r = match res {
                 Ok(r) => r,
                 Err(msg) => json!({"st": "PANIC", "panic": msg}),
